@@ -279,21 +279,25 @@ func (f *file) writeBlobAt(op string, p blob.Blob, off int64) (n int, err error)
 	if f.flag&hackpadfs.FlagAppend != 0 {
 		off = int64(f.Size())
 	}
-
-	endIndex := off + int64(p.Len())
-	if int64(f.Size()) < endIndex {
-		data, err := f.Data()
-		if err != nil {
-			return 0, &hackpadfs.PathError{Op: op, Path: f.path, Err: err}
-		}
-		err = blob.Grow(data, endIndex-int64(f.Size()))
-		if err != nil {
-			return 0, &hackpadfs.PathError{Op: op, Path: f.path, Err: err}
-		}
+	if f.Mode().IsDir() {
+		return 0, &hackpadfs.PathError{Op: op, Path: f.path, Err: hackpadfs.ErrIsDir}
+	}
+	if off < 0 {
+		return 0, &hackpadfs.PathError{Op: op, Path: f.path, Err: errors.New("negative offset")}
+	}
+	if off > math.MaxInt64-int64(p.Len()) {
+		return 0, &hackpadfs.PathError{Op: op, Path: f.path, Err: hackpadfs.ErrInvalid}
 	}
 	data, err := f.Data()
 	if err != nil {
 		return 0, &hackpadfs.PathError{Op: op, Path: f.path, Err: err}
+	}
+	endIndex := off + int64(p.Len())
+	if size := int64(data.Len()); size < endIndex {
+		err = blob.Grow(data, endIndex-size)
+		if err != nil {
+			return 0, &hackpadfs.PathError{Op: op, Path: f.path, Err: err}
+		}
 	}
 	n, err = blob.Set(data, p, off)
 	if err != nil {
